@@ -3,7 +3,7 @@
    proposal with one transaction it does not hold, and asks the application for it.  Everything is computed with the
    executable model (vm_compute). *)
 From Coq Require Import ZArith List.
-From DbftV Require Import Gates NoPanic P10 P12 Replay D1 S1 V1 SignLApi SignLNoCV.
+From DbftV Require Import Gates NoPanic P10 P12 Replay D1 S1 V1 SignLApi SignLNoCV SignLCM.
 From DbftV Require Spec_dbft Spec_antiMEV.
 Open Scope Z_scope.
 
@@ -128,6 +128,16 @@ Example a_broadcast_after_the_signature :
 Proof.
   destruct (lock_okb_sound v1_cfg (firstn 7 v1) (fst (nth 7 v1 (EReset 0, []))) (snd (nth 7 v1 (EReset 0, []))) 0 ltac:(vm_compute; reflexivity))
     as (st & g & st' & tr & H). eauto 10.
+Qed.
+
+(* the hypotheses of "every Commit broadcast from the signature on is the signed commit": in V1 the node broadcasts its Commit
+   right after the signature request *)
+Example a_commit_broadcast_after_the_signature_request :
+  exists st g g1 s p g2, Epoch v1_cfg st g /\ KS 0 g /\ zlen (Validators st) <= 65536 /\
+                         g = g1 ++ (s, CBroadcast p) :: g2 /\ p_type p = CommitT /\ nsign g1 <> 0%nat.
+Proof.
+  destruct (epoch_with_okb_sound v1_cfg (firstn 7 v1) 0 (cm_after_sign 0) ltac:(vm_compute; reflexivity)) as (st & g & HE & Hk & Hz & _ & Hf).
+  destruct (cm_after_sign_sound g 0%nat Hf) as (g1 & s & p & g2 & E & Ty & Hn). exists st, g, g1, s, p, g2. auto 10.
 Qed.
 
 (* the shipped constants of the TLA+ models satisfy the translated ASSUME (the hypothesis of the C20 theorems) *)
